@@ -189,6 +189,10 @@ def iterable(ex, v):
         r = h(ex, v)
         if r is not NotImplemented:
             return r
+    if is_sym(v) and v.ty.kind == "opt":
+        if ex.branch(v.ty.is_none(v.t), "isnone"):
+            ex.raise_(TypeError, "'NoneType' object is not iterable", tag="none-iter")
+        return iterable(ex, _wrap_field(v.ty.inner, v.ty.val(v.t)))
     if is_sym(v):
         if v.ty.kind == "seq":
             n = z3.simplify(z3.Length(v.t))
@@ -319,7 +323,7 @@ def contains(ex, container, item):
             return item in container
         return z3.Contains(term(container, STR), term(item, STR))
     if is_sym(container) and container.ty.kind == "seq":
-        return z3.Contains(container.t, z3.Unit(term(item, container.ty.inner)))
+        return z3.Contains(container.t, container.ty.unit(term(item, container.ty.elem())))
     if is_sym(container) and container.ty.kind == "opt":
         if ex.branch(container.ty.is_none(container.t), "isnone"):
             ex.raise_(TypeError, "argument of type 'NoneType' is not iterable", tag="none-in")
@@ -1089,6 +1093,9 @@ def getslice(ex, obj, lo, hi):
         ty = obj.ty if is_sym(obj) else STR
         t = term(obj, ty)
         n = z3.Length(t)
+        if hi is None and isinstance(lo, int) and lo >= 0:
+            # s[k:] -- kept in the plain form SubSeq(s, k, len - k) (z3 clamps a negative length to empty)
+            return SV(z3.SubSeq(t, lo, n - lo) if ty.kind == "seq" else z3.SubString(t, lo, n - lo), ty)
 
         def norm(k, default):
             if k is None:
@@ -1578,7 +1585,24 @@ def b_minmax(which):
 
 
 def b_zip(ex, args, kwargs):
-    lists = [as_list(ex, a) for a in args]
+    lists = []
+    syms = []
+    for a in args:
+        if is_sym(a) and a.ty.kind == "seq" and not z3.is_int_value(z3.simplify(z3.Length(a.t))):
+            syms.append(a)
+            lists.append(None)
+        else:
+            lists.append(as_list(ex, a))
+    if syms:
+        conc = [l for l in lists if l is not None]
+        if not conc:
+            raise Unsupported("zip of symbolic sequences only")
+        k = min(len(l) for l in conc)
+        for a in syms:
+            # zip stops at the shortest input: the symbolic ones must be known to be long enough
+            if ex._check([z3.Length(a.t) < k], ex.BRANCH_TIMEOUT_MS) != z3.unsat:
+                raise Unsupported("zip with a symbolic sequence that may be the shortest")
+        lists = [l if l is not None else [_wrap_field(a.ty.inner, a.t[j]) for j in range(k)] for l, a in zip(lists, args)]
     return [tuple(t) for t in zip(*lists)]
 
 
@@ -1624,6 +1648,8 @@ def b_list(ex, args, kwargs):
     if not args:
         return []
     v = args[0]
+    if is_sym(v) and v.ty.kind == "seq" and not z3.is_int_value(z3.simplify(z3.Length(v.t))):
+        return SV(v.t, TSeq(v.ty.inner, "list"))   # sequences are values: a copy is the same value
     it = iterable(ex, v)
     if isinstance(it, SymIter):
         for h in LIST_HOOKS:
